@@ -119,6 +119,12 @@ Do(s) ==
          /\ (sd.wait => AllMet)
          /\ sd' = [sd EXCEPT !.ended = TRUE]
          /\ UNCHANGED <<cfg, els, idle, drops, snap>> /\ ev' = s
+    [] s.op = "probe" ->           \* the driver vouches that at least one worker has had nothing to do for the last s.slack time units
+                                   \* (more workers than elements in flight, no callback held): an accepted element that has been due
+                                   \* for that long was delivered - "eventually" with a deadline, which a lost wake-up misses
+         /\ Clock(s)
+         /\ \A k \in DOMAIN els : ~(els[k].added = "ok" /\ Live(els[k]) /\ els[k].at + s.slack <= s.ts)
+         /\ UNCHANGED <<cfg, els, sd, idle, drops, snap>> /\ ev' = s
     [] s.op = "final" ->           \* the run is over: nobody hangs, everything owed has run
          /\ Clock(s) /\ s.hung = <<>> /\ AllMet
          /\ UNCHANGED <<cfg, els, sd, idle, drops, snap>> /\ ev' = s
